@@ -88,6 +88,12 @@ CHECKS = {
         note="Trusted base: json, regex scanner for end-tag-like text, dependency model D, tokenizer T; package sources name importable packages when URLs are computed.",
         ref="2/C13",
     ),
+    "C14": dict(
+        technique="model-based history testing: Hypothesis-generated operation sequences (construction, append, extend, insert, +, reflected +, +=, slicing, repetition; on a TagList and through a Tag) with arbitrarily nested arguments and invalid objects at any depth, against a Python-list model with the harness's own flatten; failure atomicity; is_tag_child / is_tag_node agreement",
+        text="Seeded generated histories (one history = one shrinkable value) compared with a reference model after every step. Found and fixed two defects: inherited UserList.__iadd__ and is_tag_child(int) (known_findings.json). Exploration.",
+        note="Trusted base: the list model and flatten in the harness; booleans, bare HTML() as an iterable and item/slice assignment are outside the statement.",
+        ref="2/C14",
+    ),
 }
 
 PENDING_REASON = "check not built yet in this revision (work in progress; see DESIGN.md section 2 for the planned generator and oracle)"
